@@ -330,6 +330,8 @@ class C09(PropCheck):
                 node["stack_exiting"] = True
                 node["exit_by"] = rng.choice(["fallthrough", "exception"])
             case = {"k": "tree", "node": node}
+            if (node.get("exiting") or node.get("stack_exiting")) and node.get("exit_by") == "fallthrough":
+                case["body"] = rng.choice([None, "try_raise", "try_return"])
             if not node.get("exiting") and not node.get("stack_exiting") and rng.random() < 0.3:
                 # the same unfolding when the bytecode analysis is unavailable (gc-referents fallback): which managers are active in
                 # each generator frame is then read off the generator object
@@ -375,7 +377,26 @@ class C09(PropCheck):
             def __exit__(s, *a):
                 return False
 
-        if node["async"]:
+        body = case.get("body")
+        if node["async"] and body in ("try_raise", "try_return") and (exiting or stack_exiting) and node.get("exit_by") != "exception":
+            # the block is left normally and its last statement is a try/except all of whose handlers leave by raise / return
+            if body == "try_raise":
+                async def holder():
+                    async with root as st:
+                        try:
+                            b.touched = 1
+                        except OSError as ex:
+                            raise KeyError("wrapped") from ex
+            else:
+                async def holder():
+                    async with root as st:
+                        try:
+                            b.touched = 1
+                        except OSError:
+                            return
+                        except KeyError:
+                            return
+        elif node["async"]:
             async def holder():
                 async with root as st:
                     if enter_probe:
